@@ -38,7 +38,7 @@ prop("C12", "exploration", (3000, 60000),
      rule="one run = one seeded tree scenario (hasher, leaf-count 2^0..2^10, widths 1..20 on both sides of the hash_or_noop threshold, cap height, "
           "1..4 matrix heights, fork-join schedule with 1..16 simulated workers); a case = one oracle check of that scenario (cap vs REF-MERKLE, "
           "schedule independence, an opening, or one fault on an opening: other leaf / other position / each altered sibling / altered or swapped cap entry / "
-          "altered lower-matrix leaf / compress-decompress of an index multiset). distinct = distinct hash of (scenario, position, fault); "
+          "altered lower-matrix leaf / compress-decompress of an index multiset). Half of the scenarios commit to leaves holding some elements in their non-canonical representation x+p while the reference tree is computed over the canonical values; simulated worker counts include 3, 5, 6, 7. distinct = distinct hash of (scenario, position, fault); "
           "non-trivial = the tree has >= 2 leaves and the fault changed the value (for schedule independence: > 1 simulated worker)",
      technique="deterministic simulation: seeded fork-join schedules over Merkle construction + opening fault injection vs sequential reference tree",
      text="Seeded exploration of fork-join schedules (join order, chunk order, 1-16 simulated workers) of MerkleTree/BatchMerkleTree construction, "
@@ -52,7 +52,7 @@ prop("C01", "exploration", (1500, 40000),
           "satisfying inputs x admissible CircuitConfig/FriConfig (row widths, constants, challenges 1-3, zk on/off, rate, cap height, pow bits, Fixed/ConstantArity/MinSize, "
           "1-28 queries, Poseidon/Keccak) x fork-join schedule (1-16 simulated workers) x prover entropy stream (stream / all-zero / constant). "
           "Oracle: build ok, prove ok, verify ok, public inputs == reference evaluator, proof survives encode/decode and a second verification. "
-          "distinct = distinct hash of (program shape, inputs, configuration, schedule trace); all executed scenarios are non-trivial (a full prove+verify happened)",
+          "Hash ops include hash_n_to_m_no_pad with 1-20 outputs (several squeeze blocks); lookup tables are shuffled, may be prefixes / extensions of one another and may be looked up through a program input. distinct = distinct hash of (program shape, inputs, configuration, schedule trace); all executed scenarios are non-trivial (a full prove+verify happened)",
      technique="deterministic simulation: fault-free setup->prover->channel->verifier pipeline under seeded schedule, entropy and configuration; independent reference evaluator",
      text="Seeded exploration of the honest pipeline: every run builds a generated circuit, proves it under a simulated fork-join schedule and a seeded (or degenerate) "
           "entropy source, sends the proof through the byte channel and verifies it; the carried public inputs are compared with an independent reference evaluator "
@@ -99,13 +99,13 @@ prop("C19", "exploration", (40, 600),
           "hash-map seed) builds the circuit under 3 (quick) or 8 (thorough) fork-join schedules with 1-16 simulated workers, proves under each, and emits key bytes, digests of "
           "deterministic intermediates (sigma polynomials, preprocessed polynomials and tree, subgroup, coset shifts, transforms/hashes/Merkle caps of seeded data, the sequential-schedule "
           "proof bytes of unblinded circuits) and proofs; every other node must derive identical bytes/digests and accept every delivered proof. "
-          "A case = one comparison (keys under a schedule, pre-grinding transcript under a schedule, keys across two nodes, one delivered proof). "
+          "Every build draws from its own entropy stream (keys must not depend on it). The quick tier has three nodes: scalar release, AVX2 release, and baseline with debug assertions and overflow checks. A case = one comparison (keys under a schedule, pre-grinding transcript under a schedule, keys across two nodes, one delivered proof). "
           "non-trivial = the two sides differ in schedule (>1 worker) or in build variant",
      technique="deterministic simulation: heterogeneous cluster of build variants x hash seeds x seeded schedules; byte-identity of keys/intermediates and cross-acceptance of proofs",
      text="Seeded exploration over schedules, compile-time hash seeds and SIMD builds: identical verifier/common data and deterministic intermediates across all of them, "
           "identical pre-grinding transcripts across schedules, and full cross-acceptance of proofs between nodes (also for blinded circuits).",
      note="Thread scheduling is simulated (linearised fork-join); hash seeds are fixed per variant by CONST_RANDOM_SEED (4 seeds, not all); programs avoid BaseSumGate<B!=2>, which the default gate serializer cannot encode.",
-     variants={"quick": ["v0", "v1"], "thorough": ["v0", "v1", "v2", "v3"]}, driver=True)
+     variants={"quick": ["v0", "v1", "v3"], "thorough": ["v0", "v1", "v2", "v3"]}, driver=True)
 
 prop("C17", "exploration", (240, 5000),
      rule="one run = crash/restart of one seeded circuit (programs over the gates and generators registered in the default serializers, lookups, zk, all configurations; Poseidon; every sixth run a recursion circuit verifying a proof of the program circuit, plain or conditional): "
@@ -124,7 +124,7 @@ prop("C18", "fault_enumeration", (48, 1500),
           "every prefix for ~10% of thorough runs), bit flips, 8-byte word edits to {0,1,2,2^16,2^32,2^48,2^63,u64::MAX,p,...} at the tail / random aligned offsets (every aligned offset "
           "when dense), random byte strings, splices of two valid encodings. Struct level into verify / verify_compressed / decompress: every list fault (drop first/last, empty, duplicate, swap; "
           "also nested: query rounds without steps, Merkle proofs of wrong length, caps of non-power-of-two length), element faults, and for compressed proofs map faults "
-          "(missing / surplus / renamed keys) and out-of-range query positions. Oracle: the call returns; no panic, no abort, no single allocation request above 1 GiB; success only for an honest proof. "
+          "(missing / surplus / renamed keys) and out-of-range query positions. STARK proofs (also of lookup tables) additionally get every combination of two or more optional components switched off at once. Oracle: the call returns; no panic, no abort, no single allocation request above 1 GiB; success only for an honest proof. "
           "distinct = (scenario, entry point, fault); non-trivial = the input differs from the honest encoding/value",
      technique="deterministic simulation: hostile-channel fault enumeration (byte and struct level) against decoders and verifiers, with panic capture, a counting allocator and address-space cap",
      text="Fault enumeration over malformed inputs: every fault class of the catalogue at stratified (thorough: dense) positions into each decoding / verification entry point, "
@@ -140,7 +140,7 @@ prop("C02", "exploration", (300, 5000),
           "H2 quotient altered for each challenge index, H4 hand-picked grinding witness, H5 altered final polynomial, and H1 combined with a pure copy-class violation. "
           "Oracle A: the independent statement checker SAT (gate constraints per row, copy classes + sigma cycles, lookup pairs/table rows from table data) says violated, or the strategy "
           "breaks exactly one verifier check => no accepted proof. Oracle B: any accepted proof carries public inputs equal to the reference evaluator's. "
-          "distinct = (scenario, fault); non-trivial = SAT violated or strategy must-reject (accepted-and-satisfied cases are counted trivial)",
+          "Input-assignment cases: the honest prover on another assignment of one input (powers of two where range assertions flip, inputs that only another lookup table holds): if the reference evaluator rejects it for a reason no witness can repair (range / width / not in table) no accepted proof may result, otherwise an accepted proof carries the reference outputs. distinct = (scenario, fault); non-trivial = SAT violated or strategy must-reject (accepted-and-satisfied cases are counted trivial)",
      technique="deterministic simulation: Byzantine prover with write-event, cell, copy-class faults and adversarial strategy hooks; independent statement checker and reference evaluator as oracles",
      text="Seeded exploration of a faulty/malicious prover node: single faults are injected into witness generation and into the finished witness, degenerate proving strategies are armed "
           "through cooperative fault points, the real prover runs the protocol anyway and the real verifier must reject whenever an independent statement checker finds the assignment "
@@ -152,7 +152,7 @@ prop("C08", "exploration", (120, 4000),
           "per table 1 .. 3 rows' worth of lookups with heavy repetition, exact multiples of the slot count and partially filled last rows, unused entries; all configurations. "
           "Fault-free case: proves, verifies, every lookup output equals the table's value (reference evaluator), the statement checker is satisfied. Fault cases (Byzantine prover of C02): "
           "looked-up output +1 / random, looked-up input +1, the output another table holds for the same input, table-row input/output cells, H1 (all-zero accumulator), H2 (quotient altered per challenge) and the strategy \"first lookup row left out of the running sum\" (wrong output in the first LookupGate row of a table while the prover's bookkeeping prover_only.lookup_rows starts the lookup rows one row later): "
-          "no accepted proof. distinct = (scenario, fault); non-trivial = the statement checker finds the pair outside its table (or the strategy must be rejected)",
+          "no accepted proof. Table inputs are progressions or scattered values, in arbitrary order; a table may be a proper prefix or an extension of the previous one; one lookup goes through a program input, and the honest prover is re-run with that input moved to an entry only another table holds / outside every table (=> no accepted proof) / another entry of the same table (=> accepted with that entry's output). distinct = (scenario, fault); non-trivial = the statement checker finds the pair outside its table (or the strategy must be rejected)",
      technique="deterministic simulation: lookup workloads through the honest pipeline and a Byzantine prover with lookup-pair / table-cell faults; table-data statement checker as oracle",
      text="Seeded exploration of lookup arguments in both directions: completeness with reference-checked outputs on boundary table/lookup sizes, and rejection of every single-pair, "
           "other-table and table-cell fault injected into the real prover's witness.",
@@ -165,7 +165,7 @@ prop("C07", "fault_enumeration", (600, 12000),
           "(first 3 rows per gate type fully, then 1/8 sampled). A case = one replacement of ONE generator-written wire of the row by {v+1, 0, 1, p-1, random}: some constraint of that row must become non-zero "
           "(observed on Gate::eval_unfiltered of that row); plus lock-step cases: honest row satisfies all constraints, exactly num_constraints() values, base-batch evaluator (batch sizes 1,4,5,8,9,32) == "
           "extension evaluator, in-circuit evaluator (a circuit evaluating the constraints, witness generated, values read back) == native on honest/perturbed/random rows, declared degree. "
-          "distinct = (gate, parameters, row, wire, replacement); all executed cases non-trivial (value changed)",
+          "CosetInterpolationGate is instantiated with degree bounds below 2^bits (intermediate wires); for gates generic in the extension degree the extension and base-batch evaluators are also compared, and counted against num_constraints(), over the quartic and quintic extensions. distinct = (gate, parameters, row, wire, replacement); all executed cases non-trivial (value changed)",
      technique="deterministic simulation: single-write fault injection into gate rows of the prover's witness memory; differential evaluation of the gate's evaluators on the same rows",
      text="Every wire written by a gate's own generators is replaced in turn and the row's constraints must notice; the evaluators of each gate are compared on identical honest, perturbed and random rows. "
           "The pinning half is single-write fault enumeration per row; the lock-step half is seeded differential sampling.",
@@ -179,7 +179,7 @@ prop("C05", "exploration", (300, 6000),
           "Cases: honest proof accepted (openings computed by the reference evaluator); arity-schedule invariants; wrong claimed opening (verifier given a lie under re-derived AND fixed challenges, and a prover that absorbs the lie); "
           "first layer committed to another function; a function of twice the degree folded honestly; insufficient grinding (prover without, verifier with proof of work; legitimately lucky responses counted trivial); "
           "+1 edits at first/last/random positions of every proof component under FIXED challenges (leaves, siblings, coset evaluations, final polynomial; all entries of a commit cap) and under re-derived challenges; "
-          "for the batched variant wrong openings per group and element edits under fixed challenges. Every deviation must be rejected. distinct = (instance, deviation); all non-trivial except lucky grinding",
+          "for the batched variant wrong openings per group and element edits under fixed challenges. Every deviation must be rejected. Instances include oracles opened only at a later point; the proof-of-work threshold is probed under fixed challenges (one bit short => reject, exactly enough => accept). distinct = (instance, deviation); all non-trivial except lucky grinding",
      technique="deterministic simulation: FRI prover/verifier as a two-party system with a Byzantine prover catalogue and message faults under fixed and re-derived challenges",
      text="Seeded exploration of FRI instances with the honest prover, a catalogue of Byzantine provers and per-element message faults; holding the challenges fixed isolates every algebraic and Merkle check "
           "of the verifier from Fiat-Shamir masking.",
@@ -191,7 +191,7 @@ prop("C09", "exploration", (1000, 20000),
           "including a definition without constraints = no quotient; recurrence traces of 2^2..2^10 rows; StarkConfig: 1-3 challenges, rate 1-3, cap, pow, Fixed/ConstantArity/MinSize, Poseidon/Keccak) under a seeded schedule. "
           "Cases: honest prove+verify; single trace-cell faults at rows {0, 1, mid, n-2, n-1 (wrap-around)}; a prover using a changed public input; element and list faults on every component of the accepted proof and its public inputs. "
           "Oracle: the simulator evaluates the definition directly on the (faulted) trace - violated => no accepted proof (prover error or verifier rejection), satisfied (unconstrained cell / public input) => accepted; every tampered proof rejected. "
-          "distinct = (instance, config, fault); non-trivial = the reference check finds the fault violating (or the message fault changed the value)",
+          "Forging prover strategies for violating traces: no quotient cap; a zero quotient cap with no quotient openings; zeta drawn before the quotient is committed and absorbed (transcript-order attack) - each must be rejected. distinct = (instance, config, fault); non-trivial = the reference check finds the fault violating (or the message fault changed the value)",
      technique="deterministic simulation: STARK prover/verifier under seeded schedules with trace-cell, public-input and proof faults; direct evaluation of the data-defined constraints as reference",
      text="Seeded exploration of a family of STARK definitions in both directions: satisfying traces (also after changing unconstrained cells) prove and verify, every single-cell or public-input violation and every tampered proof is rejected.",
      note="The family is defined in the simulator (the repository's example STARKs are test-only); lookups and cross-table lookups are C10. Build variant v0 has debug assertions off, so the shipped prover reaches the verifier with violating traces.")
@@ -203,7 +203,7 @@ prop("C10", "exploration", (300, 6000),
           "documented flow (commit all traces, observe all caps, get_ctl_data, per table prove_with_commitment, per table CtlCheckVars::from_proof + verify_stark_proof_with_challenges, verify_cross_table_lookups). "
           "Cases: the honest system; single-value faults: a looking value altered / random / replaced by another table value, a looked value altered, a frequency +1 / zeroed, a filter flipped on either side (value missing / extra), an inactive row changed. "
           "Oracle: multiset equality of filtered looking rows and looked rows (with frequencies for column lookups) computed directly: unequal => rejected at one of the verification stages (or prover error), still equal => accepted. "
-          "distinct = (instance, config, fault); non-trivial = the direct multiset check finds the fault violating",
+          "Every fourth filter selects by the filter column's next-row value; in cross-table systems the repeated looking table may be of constraint degree 2 (one looking entry per helper column). distinct = (instance, config, fault); non-trivial = the direct multiset check finds the fault violating",
      technique="deterministic simulation: STARK lookup and multi-table cross-table-lookup workloads with single-value faults on looking side, looked side, frequencies and filters; direct multiset oracle",
      text="Seeded exploration of STARK column lookups and cross-table lookups in both directions with a multiset oracle that shares no code with the logUp / running-sum arguments; the multi-table driver is validated in the fault-free configuration on every run.",
      note="Cross-table topologies are restricted to what the library supports: constraint degree 3, the looked table not among its looking tables, sides of a repeated looking table adjacent (the prover groups them with a consecutive group_by). "
@@ -215,7 +215,7 @@ prop("C06", "exploration", (48, 1200),
           "the honest proof; ~24 (thorough 60) element faults and 4 list faults over all proof components (caps, openings, query-round leaves / siblings / coset evaluations, commit caps, final polynomial, pow witness, public inputs); "
           "proofs of false statements from the Byzantine prover (cell faults); single-check proofs from the strategy hooks H1 (all-zero accumulator), H2 (quotient altered for each challenge index), H4 (grinding witness), H5 (final polynomial). "
           "Oracle: native verify(proof).is_ok()  <=>  the library's own set_proof_with_pis_target + set_verifier_data_target + witness generation succeed AND the independent statement checker is satisfied on the outer witness; "
-          "for the first agreeing accept the outer proof is also proved, verified and its public inputs compared with the inner ones. distinct = (scenario, inner proof fault); non-trivial = the inner proof differs from the honest one (or is the honest one)",
+          "for the first agreeing accept the outer proof is also proved, verified and its public inputs compared with the inner ones. Byzantine strategy 'kernel tamper': in one query round two non-queried evaluations of a FRI coset are shifted along the kernel of the folding map (fold at beta unchanged), so that only the Merkle opening of that coset can notice - also for layers that lie entirely in the cap (self-validated: the native verifier must reject it with a Merkle error). distinct = (scenario, inner proof fault); non-trivial = the inner proof differs from the honest one (or is the honest one)",
      technique="deterministic simulation: aggregator node fed valid, faulted and single-check inner proofs; the native verifier is the reference model for the in-circuit verifier",
      text="Seeded exploration of the in-circuit verifier against the native verifier as reference model, with inner proofs that fail exactly one native check so that a check missing only in the circuit version is not masked.",
      note="Outer acceptance is decided by witness generation + the statement checker SAT (which trusts the gates' eval_filtered); one outer proof per scenario is fully proved and verified. Inner circuits are kept <= 2^9 rows and <= 8 queries so that the outer circuit stays at 2^10-2^12 rows.")
@@ -227,7 +227,7 @@ prop("C20", "exploration", (36, 600),
           "the dummy proof of dummy_circuit(common) verifies; or (1/12) a cyclic chain of length 1-3 after the base case (cyclic_base_proof): every link proves, verifies, passes check_cyclic_proof_verifier_data and carries reference-correct "
           "public inputs (textbook Poseidon iteration, counter), and +1 on EVERY embedded verifier-data element is caught by check_cyclic_proof_verifier_data (every 7th also through verify). "
           "Oracle for the matrix: outer assignment + witness generation + statement checker accept  <=>  the native verifier accepts the SELECTED proof under the SELECTED key. "
-          "distinct = (scenario, cell); non-trivial = the two branches differ in validity (conditional), every cell (or-dummy, cyclic)",
+          "The conditional matrix is repeated with a condition that is a circuit constant (_true / _false); cyclic circuits are built with cap heights 0-5; a Byzantine chain (a link proved under altered verifier data on top of the dummy base case, then an honest step) must not yield an accepted tip. distinct = (scenario, cell); non-trivial = the two branches differ in validity (conditional), every cell (or-dummy, cyclic)",
      technique="deterministic simulation: aggregator with two inner proofs and a condition (full validity matrix), dummy branch, and cyclic chains as histories; native verifier as reference model",
      text="Seeded exploration of conditional verification as a matrix over condition and validity of each branch and key, and of cyclic recursion as multi-step histories with alteration of the embedded verifier data.",
      note="Shapes for which the library's dummy_circuit cannot reproduce the common data (a build-time assert) or whose cap height differs from the outer configuration's are outside the or-dummy variant's preconditions and skip that part (probe counts both). Cyclic chains use the standard recursion configuration (2^12-row circuit).")
